@@ -133,6 +133,21 @@ func ruleSharedHandle(c *eng.Ctx) {
 		} else {
 			c.Ok(R, fname+"#Reader.file", f.Pos(), fmt.Sprintf("%d uses of Reader.file, all positional", uses))
 		}
+		// the input of a parser created on the cycle belongs to that parse: a buffered reader or lexer kept in
+		// a field of the Reader is shared with the nested parse that resolving a reference starts
+		np := 0
+		for _, ci := range eng.Calls(f, false, func(n string, _ ssa.CallInstruction) bool {
+			return n == "core.NewParser" || n == "core.NewLexer" || n == "bufio.NewReader" || n == "bufio.NewReaderSize"
+		}) {
+			np++
+			shared := ""
+			for w := range eng.Slice(ci.Common().Args[0], nil) {
+				if fr, ok := eng.LoadOfField(w); ok && strings.HasSuffix(fr.Struct, "reader.Reader") && fr.Field != "file" && fr.Field != "fileSize" {
+					shared = fr.Field
+				}
+			}
+			c.Check(shared == "", R, fmt.Sprintf("%s#parse-input%d", fname, np), ci.Pos(), "the parser reads through state created for this parse", "the parser reads through Reader."+shared+", which a nested GetObject (indirect /Length, object stream) re-uses and resets while this parse is suspended")
+		}
 	}
 }
 
